@@ -110,6 +110,12 @@ def binop (x : SX) : R BinOp :=
   | .atom "bxor" => pure .bxor | .atom "shl" => pure .shl | .atom "shr" => pure .shr
   | _ => fail "binop"
 
+def binds (bs : List SX) : R (List (Ln × String)) :=
+  bs.mapM fun b =>
+    match b with
+    | .list [bl, bname] => do pure ((← nat bl), (← name bname))
+    | _ => fail "bind"
+
 def isFunc (x : SX) : Bool :=
   match x with
   | .list (.atom "func" :: _) => true
@@ -147,6 +153,10 @@ partial def expr (x : SX) : R Expr :=
   | .list [.atom "proj", l, a, il, i] => do pure (.proj (← nat l) (← expr a) (← nat il) (← nat i))
   | .list (.atom "range" :: l :: bs) => do pure (.range (← nat l) (← exprs bs))
   | .list (.atom "slice" :: l :: a :: bs) => do pure (.slice (← nat l) (← expr a) (← exprs bs))
+  | .list (.atom "ctor" :: l :: e :: it :: args) => do
+      pure (.ctor (← nat l) (← expr e) (← name it) (← exprs args))
+  | .list [.atom "ifletrec", l, gl, en, it, .list bs, e, t, f] => do
+      pure (.ifLetRec (← nat l) (← nat gl) (← name en) (← name it) (← binds bs) (← expr e) (← expr t) (← expr f))
   | .list [.atom "iflet", l, gl, en, it, e, t, f] => do
       pure (.ifLet (← nat l) (← nat gl) (← name en) (← name it) (← expr e) (← expr t) (← expr f))
   | .list (.atom "pipe" :: l :: a :: f :: args) => do
@@ -176,6 +186,8 @@ partial def guards (xs : List SX) : R GuardList :=
   | [] => pure .nil
   | .list [.atom "g", l, en, it, e] :: r => do
       pure (.cons (.item (← nat l) (← name en) (← name it) (← expr e)) (← guards r))
+  | .list [.atom "grec", l, en, it, .list bs, e] :: r => do
+      pure (.cons (.recd (← nat l) (← name en) (← name it) (← binds bs) (← expr e)) (← guards r))
   | .list [.atom "else", l, e] :: r => do pure (.cons (.else_ (← nat l) (← expr e)) (← guards r))
   | _ => fail "guard"
 partial def quals (xs : List SX) : R QualList :=
@@ -210,6 +222,8 @@ def decl (x : SX) : R Decl :=
         | .list [il, iname] => do pure ((← nat il), (← name iname))
         | _ => fail "enum item"
       pure (.enum (← nat l) (← name n) its)
+  | .list (.atom "enumrec" :: l :: en :: it :: fields) => do
+      pure (.enumRec (← nat l) (← name en) (← name it) (← fields.mapM param))
   | .list (.atom "record" :: l :: n :: fields) => do
       pure (.record (← nat l) (← name n) (← fields.mapM param))
   | _ => fail "decl"
